@@ -927,6 +927,36 @@ func (a *idxAnalyzer) retSig() string {
 func (a *idxAnalyzer) runAll(fds []*ast.FuncDecl) {
 	a.computeInvariants()
 	tabs := a.collectFuncTables()
+	// mutually recursive decoders (a value reader that calls the group reader that calls the value reader)
+	// have return facts that hold only together: start from the candidate "int result <= len(sequence
+	// parameter)" facts of every function that takes part in a call cycle and let the rounds strike out
+	// what cannot be shown under the others (greatest fixpoint; sound for every call that returns)
+	for _, fd := range a.recursiveFuncs(fds) {
+		id, ok := a.info.Defs[fd.Name].(*types.Func)
+		if !ok || len(a.retLE[id]) > 0 {
+			continue
+		}
+		sig := id.Type().(*types.Signature)
+		ps := paramList(fd.Type.Params)
+		var seed []retFact
+		for ri := 0; ri < sig.Results().Len(); ri++ {
+			if !isIntType(sig.Results().At(ri).Type()) {
+				continue
+			}
+			for pj, p := range ps {
+				if p == nil || !a.track(a.info.TypeOf(p)) {
+					continue
+				}
+				if sk, ok := a.termKey(p); ok {
+					seed = append(seed, retFact{res: ri, param: pj, seqKey: sk, lenOf: true, whenOK: -1})
+				}
+			}
+		}
+		if len(seed) > 0 {
+			a.retLE[id] = seed
+		}
+	}
+	a.deriveIfaceFacts()
 	for round := 0; round < 8; round++ {
 		a.sites = nil
 		a.callObls = nil
@@ -938,6 +968,7 @@ func (a *idxAnalyzer) runAll(fds []*ast.FuncDecl) {
 		for _, fd := range fds {
 			a.analyseFunc(fd)
 		}
+		a.deriveIfaceFacts()
 		changed := len(a.invBad) != prevBad || a.retSig()+fmt.Sprint(a.delta) != prevRet
 		// escalate preconditions of functions / closures with failing sites
 		failing := map[*ast.FuncDecl]bool{}
@@ -1478,4 +1509,208 @@ func (a *idxAnalyzer) forwardedGE(z *zone, call *ast.CallExpr, ri int, lp *linEx
 		}
 	}
 	return false
+}
+
+// deriveIfaceFacts gives a method of an interface declared in this package the return facts shared by all
+// its implementations in the package (a call through the interface can reach any of them). Only facts
+// about parameters travel (same signature, same indices). An implementation all of whose returns give
+// the constant 0 for a result satisfies every "result <= len(parameter)" fact about that result.
+func (a *idxAnalyzer) deriveIfaceFacts() {
+	scope := a.pkg.Types.Scope()
+	var named []*types.Named
+	for _, n := range scope.Names() {
+		if tn, ok := scope.Lookup(n).(*types.TypeName); ok && !tn.IsAlias() {
+			if nt, ok := tn.Type().(*types.Named); ok {
+				named = append(named, nt)
+			}
+		}
+	}
+	sameFact := func(x, y retFact) bool {
+		return x.res == y.res && x.param == y.param && x.w == y.w && x.lenOf == y.lenOf && x.geParam == y.geParam && x.whenOK == y.whenOK && x.cond == y.cond && x.needIP == y.needIP && x.needSP == y.needSP
+	}
+	for _, it := range named {
+		iface, ok := it.Underlying().(*types.Interface)
+		if !ok || iface.NumMethods() == 0 {
+			continue
+		}
+		for i := 0; i < iface.NumMethods(); i++ {
+			m := iface.Method(i)
+			var impls []*types.Func
+			for _, ct := range named {
+				if _, isIface := ct.Underlying().(*types.Interface); isIface {
+					continue
+				}
+				if !types.Implements(ct, iface) && !types.Implements(types.NewPointer(ct), iface) {
+					continue
+				}
+				obj, _, _ := types.LookupFieldOrMethod(types.NewPointer(ct), true, a.pkg.Types, m.Name())
+				if f, ok := obj.(*types.Func); ok {
+					impls = append(impls, f)
+				}
+			}
+			if len(impls) == 0 {
+				delete(a.retLE, m)
+				continue
+			}
+			// candidate facts: those of the first implementation that has any
+			var cands []retFact
+			for _, f := range impls {
+				for _, ft := range a.retLE[f] {
+					if ft.param < 0 {
+						continue
+					}
+					dup := false
+					for _, c := range cands {
+						if sameFact(c, ft) {
+							dup = true
+						}
+					}
+					if !dup {
+						cands = append(cands, ft)
+					}
+				}
+			}
+			var out []retFact
+			for _, c := range cands {
+				all := true
+				for _, f := range impls {
+					has := false
+					for _, ft := range a.retLE[f] {
+						if sameFact(c, ft) {
+							has = true
+						}
+					}
+					if !has && c.lenOf && !c.geParam && c.w >= 0 && a.alwaysReturnsZero(f, c.res) {
+						has = true
+					}
+					if !has {
+						all = false
+						break
+					}
+				}
+				if all {
+					c.seqKey = ""
+					out = append(out, c)
+				}
+			}
+			if len(out) > 0 {
+				a.retLE[m] = out
+			} else {
+				delete(a.retLE, m)
+			}
+		}
+	}
+}
+
+// alwaysReturnsZero: every return statement of f gives the constant 0 for result ri.
+func (a *idxAnalyzer) alwaysReturnsZero(f *types.Func, ri int) bool {
+	fd := a.declOf[f]
+	if fd == nil || fd.Body == nil {
+		return false
+	}
+	n, all := 0, true
+	ast.Inspect(fd.Body, func(nd ast.Node) bool {
+		if _, isLit := nd.(*ast.FuncLit); isLit {
+			return false
+		}
+		if rs, ok := nd.(*ast.ReturnStmt); ok {
+			n++
+			if ri >= len(rs.Results) {
+				all = false
+				return true
+			}
+			if tv, ok := a.info.Types[rs.Results[ri]]; !ok || tv.Value == nil || tv.Value.String() != "0" {
+				all = false
+			}
+		}
+		return true
+	})
+	return all && n > 0
+}
+
+// recursiveFuncs: the functions of fds that lie on a call cycle of the package (static calls, and calls
+// through interfaces of the package resolved to every implementation).
+func (a *idxAnalyzer) recursiveFuncs(fds []*ast.FuncDecl) []*ast.FuncDecl {
+	declOf := map[*types.Func]*ast.FuncDecl{}
+	for _, fd := range fds {
+		if f, ok := a.info.Defs[fd.Name].(*types.Func); ok {
+			declOf[f] = fd
+		}
+	}
+	impls := func(m *types.Func) []*types.Func {
+		sig, _ := m.Type().(*types.Signature)
+		if sig == nil || sig.Recv() == nil {
+			return nil
+		}
+		iface, ok := sig.Recv().Type().Underlying().(*types.Interface)
+		if !ok {
+			return nil
+		}
+		var out []*types.Func
+		scope := a.pkg.Types.Scope()
+		for _, n := range scope.Names() {
+			tn, ok := scope.Lookup(n).(*types.TypeName)
+			if !ok {
+				continue
+			}
+			if _, isI := tn.Type().Underlying().(*types.Interface); isI {
+				continue
+			}
+			if types.Implements(tn.Type(), iface) || types.Implements(types.NewPointer(tn.Type()), iface) {
+				if obj, _, _ := types.LookupFieldOrMethod(types.NewPointer(tn.Type()), true, a.pkg.Types, m.Name()); obj != nil {
+					if f, ok := obj.(*types.Func); ok {
+						out = append(out, f)
+					}
+				}
+			}
+		}
+		return out
+	}
+	edges := map[*types.Func][]*types.Func{}
+	for f, fd := range declOf {
+		ast.Inspect(fd.Body, func(n ast.Node) bool {
+			c, ok := n.(*ast.CallExpr)
+			if !ok {
+				return true
+			}
+			cal := calleeFunc(a.info, c)
+			if cal == nil {
+				return true
+			}
+			if declOf[cal] != nil {
+				edges[f] = append(edges[f], cal)
+			} else if cal.Pkg() == a.pkg.Types {
+				for _, im := range impls(cal) {
+					if declOf[im] != nil {
+						edges[f] = append(edges[f], im)
+					}
+				}
+			}
+			return true
+		})
+	}
+	var out []*ast.FuncDecl
+	for f, fd := range declOf {
+		seen := map[*types.Func]bool{}
+		stack := append([]*types.Func{}, edges[f]...)
+		onCycle := false
+		for len(stack) > 0 && !onCycle {
+			g := stack[len(stack)-1]
+			stack = stack[:len(stack)-1]
+			if g == f {
+				onCycle = true
+				break
+			}
+			if seen[g] {
+				continue
+			}
+			seen[g] = true
+			stack = append(stack, edges[g]...)
+		}
+		if onCycle {
+			out = append(out, fd)
+		}
+	}
+	sort.Slice(out, func(i, j int) bool { return out[i].Pos() < out[j].Pos() })
+	return out
 }
